@@ -362,13 +362,53 @@ def run(prog, rep):
             return bool(eval_test(canon(absent_guards[0].test), {jparam: value}, fold))
         except Unknown:
             return None
+    def json_readers_absent(value):
+        """names of the get_node_json_property_as_object implementations that do NOT read ``value`` as "property absent"
+        (they hand it to json.loads, which fails on anything that is not JSON)"""
+        bad = []
+        for spec_ in ('fim.graph.neo4j_property_graph:Neo4jPropertyGraph', 'fim.graph.networkx_property_graph:NetworkXPropertyGraph'):
+            try:
+                rc_ = prog.cls(spec_)
+            except Exception:
+                continue
+            rf_ = rc_.methods.get('get_node_json_property_as_object')
+            if rf_ is None:
+                continue
+            guards_ = [n for n in walk_no_nested(rf_) if isinstance(n, ast.If) and any(isinstance(x, ast.Return) and (x.value is None or (isinstance(x.value, ast.Constant) and x.value.value is None)) for x in n.body)]
+            fold_ = lambda e, _c=rc_: prog.const_eval(e, _c.module, _c)
+            absent = False
+            for g in guards_:
+                names_ = [x.id for x in ast.walk(g.test) if isinstance(x, ast.Name) and x.id != 'self']
+                for nm in set(names_):
+                    try:
+                        if eval_test(canon(g.test), {nm: value}, fold_):
+                            absent = True
+                    except Unknown:
+                        pass
+                    except Exception:
+                        pass
+            if not absent:
+                bad.append(rc_.name)
+        return bad
     for c in ast.walk(um):
+        if isinstance(c, ast.Call) and call_name(c) == 'unset_node_property':
+            pn = kwarg(c, 'prop_name')
+            names = {fold_prop(pn)} if pn is not None and fold_prop(pn) else (prop_sources(um, pn.id) if isinstance(pn, ast.Name) else set())
+            if names & {'LabelDelegations', 'CapacityDelegations'}:
+                rep.instance('R6', 'unmerge: delegation property removed (unset) once the model\'s delegations are removed')
         if isinstance(c, ast.Call) and call_name(c) == 'update_node_property':
             pn, pv = kwarg(c, 'prop_name'), kwarg(c, 'prop_val')
             names = {fold_prop(pn)} if pn is not None and fold_prop(pn) else (prop_sources(um, pn.id) if isinstance(pn, ast.Name) else set())
             if not names & {'LabelDelegations', 'CapacityDelegations'}:
                 continue
             ok_ = isinstance(pv, ast.Constant) and isinstance(pv.value, str) and reads_back_absent(pv.value) is True
+            if ok_:
+                bad_readers = json_readers_absent(pv.value)
+                if bad_readers:
+                    rep.violation('R6', loc(mod, c), 'Neo4jCBMGraph.unmerge_adm', f'delegation property left as {norm(pv, 30)} instead of being removed',
+                                  f'the property is written as {norm(pv, 30)}: Delegations.from_json reads that as "no delegations", but '
+                                  f'{" and ".join(bad_readers)}.get_node_json_property_as_object (used by get_delegations) hands it to json.loads and '
+                                  f'raises; the node differs from its state before the merge (property present) and from a rollback to a snapshot')
             rep.instance('R6', f'unmerge: delegation property left as {norm(pv)} once the model\'s delegations are removed; reads back as absent: {ok_}')
             if not ok_:
                 rep.violation('R6', loc(mod, c), 'Neo4jCBMGraph.unmerge_adm', f'delegation property rewritten as {norm(pv, 60)}',
@@ -384,6 +424,9 @@ def run(prog, rep):
 
 CF = 'fim/graph/resources/neo4j_cbm.py'
 MUTANTS = [
+    {'name': 'unmerge-leaves-empty-text', 'file': 'fim/graph/resources/neo4j_cbm.py', 'rule': 'R6',
+     'find': "                    self.unset_node_property(node_id=node, prop_name=del_prop)\n",
+     'replace': "                    self.update_node_property(node_id=node, prop_name=del_prop, prop_val='')\n"},
     {'name': 'structural-info-stamped-on-source', 'file': CF, 'rule': 'R1',
      'find': '        temp_adm_graph.update_nodes_property(prop_name=self.PROP_STRUCTURAL_INFO,\n                                             prop_val=si.to_json())',
      'replace': '        adm.update_nodes_property(prop_name=self.PROP_STRUCTURAL_INFO,\n                                  prop_val=si.to_json())'},
